@@ -665,6 +665,9 @@ def reachable(idx: Index):
     return seen, ""
 
 
+_MEMO_DECORATORS = {"lru_cache", "cache", "cached_property", "memoize", "memoized", "cachedmethod", "cached"}
+
+
 def _module_mutables(t):
     """Module-level names bound to mutable containers ([] {} set() dict() list() defaultdict(...) OrderedDict())."""
     out = set()
@@ -682,8 +685,9 @@ def _module_mutables(t):
 
 @custom("c08-module-state", props=["C08"])
 def module_state(ctx):
-    """C08: a lint run is a function of (files, config): functions reachable from the lint entry points write no
-    module-level state. One obligation per writer found; none found => one discharged summary obligation."""
+    """C08: a lint run is a function of (files, config): functions reachable from the lint entry points keep no state
+    across calls outside the rule objects -- no module-level variables written, no module-level containers mutated, no
+    memoising decorator (functools.lru_cache / cache / cached_property ...). One obligation per site found."""
     idx = Index(ctx["repo"])
     reach, why = reachable(idx)
     if reach is None:
@@ -708,13 +712,26 @@ def module_state(ctx):
             if isinstance(n, ast.Subscript) and isinstance(n.ctx, (ast.Store, ast.Del)) and isinstance(n.value, ast.Name) \
                     and n.value.id in mm and n.value.id not in local:
                 written.add(n.value.id)
+        memo = []
+        for d in fn.decorator_list:
+            txt = ast.unparse(d.func if isinstance(d, ast.Call) else d)
+            if txt.split(".")[-1] in _MEMO_DECORATORS or "cache" in txt.split(".")[-1].lower() or "memo" in txt.split(".")[-1].lower():
+                memo.append(txt)
+        if memo:
+            # process-lifetime memoisation of a function on the lint path: its result is remembered per argument for the
+            # life of the process, so anything it reads besides its arguments (file contents, the file system, the
+            # configuration) is frozen at the first call -- history dependence on a long-lived Linter
+            out.append(dict(name=f"custom:c08-module-state/{rel}::{qual}@memoised", kind="frame", verdict="refuted", carries=True,
+                            witness_confirmed=False, solver="ast-scan",
+                            note=f"reachable from the lint entry points and memoised across calls by {memo}: a later call with the "
+                                 f"same arguments never re-reads the files / configuration the function depends on"))
         if written:
             out.append(dict(name=f"custom:c08-module-state/{rel}::{qual}", kind="frame", verdict="refuted", carries=True,
                             witness_confirmed=False, solver="ast-scan",
                             note=f"reachable from the lint entry points and writes module-level state {sorted(written)}"))
     out.append(dict(name="custom:c08-module-state/scan", kind="frame", verdict="discharged", carries=False, solver="ast-scan", ms=0.0,
                     note=f"{len(reach)} functions reachable from the lint entry points scanned for `global` writes and "
-                         f"mutation of module-level containers; writers found: {len(out)}"))
+                         f"mutation of module-level containers and memoising decorators (lru_cache / cache / cached_property ...); found: {len(out)}"))
     return out
 
 
@@ -1083,4 +1100,124 @@ def shared_config_frames(ctx):
     out.append(dict(name="custom:c08-shared-config-frames/scan", kind="frame", verdict="discharged", carries=False, solver="ast-taint", ms=0.0,
                     note=f"{seeds} check(context) entry points, {reached} functions receive (parts of) the shared configuration, "
                          f"fixpoint after {rounds} rounds; functions writing through it: {len(out)}"))
+    return out
+
+
+# =================================================================== hash-seed independence: no set iteration order in an output
+_ORDER_FREE = {"sorted", "set", "frozenset", "len", "any", "all", "sum", "min", "max", "bool", "isinstance", "hash"}
+
+
+def _is_set_annotation(a):
+    if a is None:
+        return False
+    txt = ast.unparse(a) if not (isinstance(a, ast.Constant) and isinstance(a.value, str)) else a.value
+    head = txt.replace("typing.", "").split("|")[0].strip()
+    return head.startswith(("set[", "Set[", "frozenset[", "FrozenSet[", "AbstractSet[")) or head in ("set", "frozenset", "Set", "FrozenSet")
+
+
+class SetOrderScan:
+    """Where does the ITERATION ORDER of a set (of str: PYTHONHASHSEED dependent) become the order of a list / tuple /
+    string? Set-typed expressions: set displays / comprehensions / set(...) calls, names and parameters annotated
+    set[...], attributes named like a field annotated set[...] anywhere in src, calls of functions annotated -> set[...].
+    Order-producing uses: list(S), tuple(S), sep.join(S), [.. for x in S], str(S) / f"{S}", and `for x in S:` loops
+    whose body appends / extends / yields. sorted(S) and order-free consumers (len, any, all, sum, min, max, set, in) are fine."""
+
+    def __init__(self, idx: Index):
+        self.idx = idx
+        self.set_fields, self.set_funcs = set(), set()
+        for ck, cd in idx.classes.items():
+            for st in ast.walk(cd):
+                if isinstance(st, ast.AnnAssign) and _is_set_annotation(st.annotation):
+                    t = st.target
+                    self.set_fields.add(t.id if isinstance(t, ast.Name) else getattr(t, "attr", None))
+        for t in idx.mods.values():
+            for fn in ast.walk(t):
+                if isinstance(fn, (ast.FunctionDef, ast.AsyncFunctionDef)) and _is_set_annotation(fn.returns):
+                    self.set_funcs.add(fn.name)
+        self.set_fields.discard(None)
+
+    def is_set(self, e, local):
+        if isinstance(e, (ast.Set, ast.SetComp)):
+            return True
+        if isinstance(e, ast.Name):
+            return e.id in local
+        if isinstance(e, ast.Attribute):
+            return e.attr in self.set_fields
+        if isinstance(e, ast.Call):
+            f = e.func
+            nm = f.id if isinstance(f, ast.Name) else getattr(f, "attr", None)
+            if nm in ("set", "frozenset"):
+                return True
+            if nm in self.set_funcs:
+                return True
+            if nm in ("union", "intersection", "difference", "symmetric_difference", "copy") and isinstance(f, ast.Attribute):
+                return self.is_set(f.value, local)
+        if isinstance(e, ast.BinOp) and isinstance(e.op, (ast.BitOr, ast.BitAnd, ast.Sub, ast.BitXor)):
+            return self.is_set(e.left, local) or self.is_set(e.right, local)
+        if isinstance(e, ast.IfExp):
+            return self.is_set(e.body, local) or self.is_set(e.orelse, local)
+        return False
+
+    def scan(self, fn):
+        local = {a.arg for a in fn.args.args + fn.args.kwonlyargs if _is_set_annotation(a.annotation)}
+        for _ in range(2):
+            for n in ast.walk(fn):
+                if isinstance(n, ast.AnnAssign) and isinstance(n.target, ast.Name) and _is_set_annotation(n.annotation):
+                    local.add(n.target.id)
+                elif isinstance(n, ast.Assign) and self.is_set(n.value, local):
+                    local.update(t.id for t in n.targets if isinstance(t, ast.Name))
+        safe = set()
+        for n in ast.walk(fn):
+            if isinstance(n, ast.Call):
+                nm = n.func.id if isinstance(n.func, ast.Name) else getattr(n.func, "attr", None)
+                if nm in _ORDER_FREE:
+                    for a in n.args:
+                        for sub in ast.walk(a):
+                            safe.add(id(sub))
+        hits = []
+        for n in ast.walk(fn):
+            if id(n) in safe:
+                continue
+            if isinstance(n, ast.Call):
+                nm = n.func.id if isinstance(n.func, ast.Name) else getattr(n.func, "attr", None)
+                if nm in ("list", "tuple", "str", "repr") and n.args and self.is_set(n.args[0], local):
+                    hits.append((n.lineno, ast.unparse(n)[:90]))
+                elif nm == "join" and n.args:
+                    a = n.args[0]
+                    if self.is_set(a, local) or (isinstance(a, (ast.GeneratorExp, ast.ListComp)) and self.is_set(a.generators[0].iter, local)):
+                        hits.append((n.lineno, ast.unparse(n)[:90]))
+                elif nm in ("extend",) and n.args and self.is_set(n.args[0], local):
+                    hits.append((n.lineno, ast.unparse(n)[:90]))
+            elif isinstance(n, ast.ListComp) and self.is_set(n.generators[0].iter, local):
+                hits.append((n.lineno, ast.unparse(n)[:90]))
+            elif isinstance(n, ast.FormattedValue) and self.is_set(n.value, local):
+                hits.append((n.lineno, "f-string of a set: " + ast.unparse(n.value)[:70]))
+            elif isinstance(n, (ast.For, ast.AsyncFor)) and self.is_set(n.iter, local):
+                body = ast.Module(body=n.body, type_ignores=[])
+                if any((isinstance(x, ast.Call) and getattr(x.func, "attr", None) in ("append", "extend", "insert", "write"))
+                       or isinstance(x, (ast.Yield, ast.YieldFrom)) or (isinstance(x, ast.AugAssign) and isinstance(x.op, ast.Add))
+                       for x in ast.walk(body)):
+                    hits.append((n.lineno, "for " + ast.unparse(n.target) + " in " + ast.unparse(n.iter)[:60] + ": ... append/yield"))
+        return sorted(set(hits))
+
+
+@custom("c08-set-order-flow", props=["C08"])
+def set_order_flow(ctx):
+    """C08 (hash-seed independence): in everything reachable from the lint entry points no list / tuple / string is built
+    from the iteration order of a set. One obligation per function that does (refuted unless it is a recorded finding)."""
+    idx = Index(ctx["repo"])
+    reach, why = reachable(idx)
+    if reach is None:
+        return [dict(name="custom:c08-set-order-flow/reachability", kind="frame", verdict="unknown", carries=True, note=why)]
+    sc = SetOrderScan(idx)
+    out = []
+    for (rel, qual), fn in sorted(reach.items()):
+        hits = sc.scan(fn)
+        if hits:
+            out.append(dict(name=f"custom:c08-set-order-flow/{rel}::{qual}", kind="frame", verdict="refuted", carries=True,
+                            witness_confirmed=False, solver="ast-scan",
+                            note=f"orders data by the iteration order of a set: {[f'L{ln}: {tx}' for ln, tx in hits[:4]]}"))
+    out.append(dict(name="custom:c08-set-order-flow/scan", kind="frame", verdict="discharged", carries=False, solver="ast-scan", ms=0.0,
+                    note=f"{len(reach)} reachable functions scanned; set-typed fields {sorted(sc.set_fields)[:12]}; "
+                         f"functions ordering data by set iteration: {len(out)}"))
     return out
